@@ -68,13 +68,21 @@ class _ExpectedFailure(Exception):
 # Copied from unittest before python 3.4 release. Used to maintain
 # compatibility with unittest sub-test feature. Users should not use this
 # directly.
-def _expectedFailure(func):
+def _expectedFailure(func, case=None):
     @functools.wraps(func)
     def wrapper(*args, **kwargs):
         try:
             func(*args, **kwargs)
         except Exception:
-            raise _ExpectedFailure(sys.exc_info())
+            exc_info = sys.exc_info()
+            try:
+                if case is not None:
+                    # As expectFailure() does: keep the traceback of the
+                    # failure behind the expected failure as a detail.
+                    case._report_traceback(exc_info)
+                raise _ExpectedFailure(exc_info)
+            finally:
+                del exc_info
         raise _UnexpectedSuccess
 
     return wrapper
@@ -240,7 +248,7 @@ class TestCase(unittest.TestCase):
             runTest = getattr(test_method, "_run_test_with", self.run_tests_with)
         self.__RunTest = runTest
         if getattr(test_method, "__unittest_expecting_failure__", False):
-            setattr(self, self._testMethodName, _expectedFailure(test_method))
+            setattr(self, self._testMethodName, _expectedFailure(test_method, self))
         # Used internally for onException processing - used to gather extra
         # data from exceptions.
         self.__exception_handlers = []
